@@ -5,7 +5,7 @@
    (which contains every answer a contract got mid-transaction, ChkExec) and the model's answers to the
    App-level batch on the state after the call -> Disagree.
    PropFail code = step_index * 16 + clause; Disagree code = step_index * 8 + j (j = 5: App-level batch). *)
-From Verif Require Import Base OMap Text Proto Bank Exec ExecFacts ExecFacts2 ExecIso ExecQuery ChkExec ChkX.
+From Verif Require Import Base OMap Text Proto Bank Exec ExecFacts ExecFacts2 ExecIso ExecQuery ChkExec ChkX ChkIso.
 Local Open Scope N_scope.
 
 Record qstep := {
@@ -94,10 +94,195 @@ Fixpoint corrq (ce : case_env) (batch : qacts) (steps : list qstep) (s : chain) 
       else corrq ce batch r s' (k + 1)
   end.
 
+(* ---------- further clauses (9-12): effects that completed earlier in the SAME transaction are seen ---------- *)
+(* All of them are model-independent: they use the input trees, the implementation's log and, for 9 and 12,
+   the raw store decoded before the call.  They are evaluated after clauses 5-8 ([oracle_qx]); the pinned
+   C10_model_ok covers clauses 5-8; for 9 and for the body-level core of 10 see [root_reads_model] /
+   [ryw_model] below; 10 (all depths), 11 and 12 identify a program's log by its node number and are
+   claimed for the harness's inputs (node numbers unique per scenario), not for arbitrary scripts. *)
+
+(* what a body knows about its own keys from its own script so far: newest first; None = removed *)
+Definition kmap := list (bytes * option bytes).
+Definition kget (k : bytes) (m : kmap) : option (option bytes) :=
+  match find (fun p => beqb (fst p) k) m with Some p => Some (snd p) | None => None end.
+
+(* clause 10, read-your-writes: after `AWrite k v` (and no later write / remove of k) a get of k in the same
+   body observes Some v, after `ARemove k` it observes None — also when k exists with another value BELOW
+   the body's write cache.  Keys the body has not touched are not judged.  Other queries log one entry each;
+   the walk stops at the first smart query *)
+Fixpoint ryw (node : N) (known : kmap) (acts : list action) (tr : trace) : bool :=
+  match acts with
+  | [] => true
+  | AWrite k v :: r => ryw node ((k, Some v) :: known) r tr
+  | ARemove k :: r => ryw node ((k, None) :: known) r tr
+  | AQ (QSmart _ _) :: _ => true
+  | AQ (QRead k) :: r =>
+      match tr with
+      | RObs n (VBytes x) :: tr' =>
+          (n =? node) && match kget k known with Some v => obytes_eqb x v | None => true end && ryw node known r tr'
+      | _ => false
+      end
+  | AQ _ :: r => match tr with _ :: tr' => ryw node known r tr' | [] => false end
+  end.
+
+(* the log after the header of the call of program [n] *)
+Fixpoint after_call (n : N) (tr : trace) : option trace :=
+  match tr with
+  | [] => None
+  | en :: r => match call_node en with
+               | Some n' => if n' =? n then Some r else after_call n r
+               | None => after_call n r end
+  end.
+
+Definition ryw_all (infos : list pinfo) (tr : trace) : bool :=
+  forallb (fun pi => match pi_prog pi with
+                     | Prog n acts _ => match after_call n tr with Some rest => ryw n [] acts rest | None => true end
+                     end) infos.
+
+Fixpoint last_writes (acts : list action) (known : kmap) : kmap :=
+  match acts with
+  | [] => known
+  | AWrite k v :: r => last_writes r ((k, Some v) :: known)
+  | ARemove k :: r => last_writes r ((k, None) :: known)
+  | AQ _ :: r => last_writes r known
+  end.
+
+(* clause 11: a LATER node's view of contract c.  [known] = what the last completed body of c left for the keys
+   it touched.  A raw query on c for such a key returns that value (removed = absent = empty bytes); a smart
+   query to c whose handler first reads such a key reads that value.  The walk stops after the first smart query *)
+Fixpoint raw_sees (c : text) (known : kmap) (acts : list action) (tr : trace) : bool :=
+  match acts with
+  | [] => true
+  | AWrite _ _ :: r | ARemove _ :: r => raw_sees c known r tr
+  | AQ (QSmart c' (QProg _ qa _)) :: _ =>
+      negb (teqb c' c) ||
+      match qa with
+      | QACons (QRead k) _ =>
+          match kget k known, tr with
+          | None, _ => true
+          | Some v, RQuery _ c'' _ _ :: RObs _ (VBytes x) :: _ => teqb c'' c && obytes_eqb x v
+          | Some _, _ => false
+          end
+      | _ => true
+      end
+  | AQ (QRaw c' k) :: r =>
+      match tr with
+      | RObs _ (VRaw x) :: tr' =>
+          (negb (teqb c' c) ||
+           match kget k known with
+           | Some v => obytes_eqb x (Some (match v with Some b => b | None => [] end))
+           | None => true end)
+          && raw_sees c known r tr'
+      | _ => false
+      end
+  | AQ _ :: r => match tr with _ :: tr' => raw_sees c known r tr' | [] => false end
+  end.
+
+Definition msg_prog (m : msg) : option prog :=
+  match m with MExec _ p _ | MInst _ p _ _ _ _ | MMigrate _ _ p => Some p | _ => None end.
+
+Definition later_sees (tr : trace) (c : text) (writer_acts : list action) (m : msg) : bool :=
+  match msg_prog m with
+  | Some (Prog n2 acts2 _) =>
+      match after_call n2 tr with
+      | Some rest => raw_sees c (last_writes writer_acts []) acts2 rest
+      | None => true            (* the later node did not run: nothing is claimed *)
+      end
+  | None => true
+  end.
+
+(* shape (a): a body and the FIRST sub-message it dispatches.  If that sub-message's program is in the log, the
+   parent's body finished, its response was accepted and its writes were flushed; nothing but the transfer of
+   attached funds happens in between *)
+Fixpoint lr_msg (tr : trace) (m : msg) : bool :=
+  match m with
+  | MExec _ p _ | MInst _ p _ _ _ _ | MMigrate _ _ p => lr_prog tr p
+  | _ => true
+  end
+with lr_prog (tr : trace) (p : prog) : bool :=
+  match p with
+  | Prog node acts out =>
+      match out with
+      | OFail => true
+      | OResp _ _ _ sbs =>
+          (match sbs with
+           | SCons (Sub _ _ _ m _ _) _ =>
+               match find_call node tr with
+               | Some en => later_sees tr (callee_of en) acts m
+               | None => true
+               end
+           | SNil => true
+           end) && lr_subs tr sbs
+      end
+  end
+with lr_subs (tr : trace) (l : subs) : bool :=
+  match l with SNil => true | SCons sb r => lr_sub tr sb && lr_subs tr r end
+with lr_sub (tr : trace) (sb : sub) : bool :=
+  match sb with Sub _ _ _ m on_ok on_err => lr_msg tr m && lr_prog tr on_ok && lr_prog tr on_err end.
+
+(* shape (b): two ADJACENT root messages of one execute_multi, the first a leaf execute at c.  If the second
+   one's program is in the log, the first returned Ok (collect() stops at the first error), i.e. its body ran
+   at c and was flushed *)
+Fixpoint lr_multi (tr : trace) (ms : list msg) : bool :=
+  match ms with
+  | [] => true
+  | m1 :: r =>
+      (match m1, r with
+       | MExec c (Prog _ acts (OResp _ _ _ SNil)) _, m2 :: _ => later_sees tr c acts m2
+       | _, _ => true
+       end) && lr_multi tr r
+  end.
+
+Definition later_reads_ok (op : topop) (tr : trace) : bool :=
+  match op with
+  | TWasmSudo _ p => lr_prog tr p
+  | _ => forallb (lr_msg tr) (top_msgs op) && lr_multi tr (top_msgs op)
+  end.
+
+(* clause 12: clause 7 for instantiate.  The new contract's address is the one it was told (its log header);
+   registering it does not touch the bank *)
+Definition inst_funds_ok (before : chain) (op : topop) (tr : trace) : bool :=
+  match top_sender op, top_msgs op with
+  | Some sender, MInst _ (Prog node acts _) funds _ _ _ :: _ =>
+      match first_query acts, funds, tr with
+      | Some (QBalance a d), _ :: _, RCall n EInst c' _ _ _ _ _ :: tr' =>
+          negb ((n =? node) && teqb a c') ||
+          match bank_send (bank before) sender c' funds, tr' with
+          | Ok b', RObs n' (VAmount (Some x)) :: _ => (n' =? node) && (x =? bank_balance b' c' d)
+          | _, _ => false
+          end
+      | _, _, _ => true
+      end
+  | _, _ => true
+  end.
+
+Definition p_c10x (prev : option qstep) (x : qstep) : option N :=
+  let st := q_step x in
+  first_fail [
+    (* 9: what the root body read from its own storage = its window before the call + its own writes (ChkIso) *)
+    (9, root_reads_ok (before_of prev) (st_op st) (st_trace st));
+    (* 10: read-your-writes in every body that ran, at every depth *)
+    (10, ryw_all (flat_op (st_op st)) (st_trace st));
+    (* 11: a later node's raw / smart query on c sees what the last completed body of c left *)
+    (11, later_reads_ok (st_op st) (st_trace st));
+    (* 12: funds attached to an instantiate are seen by the new contract *)
+    (12, inst_funds_ok (before_of prev) (st_op st) (st_trace st))
+  ].
+
+Fixpoint oracle_qx (prev : option qstep) (steps : list qstep) (k : N) : option N :=
+  match steps with
+  | [] => None
+  | x :: r => match p_c10x prev x with Some c => Some (k * 16 + c) | None => oracle_qx (Some x) r (k + 1) end
+  end.
+
 Definition c10 (ce : case_env) (batch : qacts) (steps : list qstep) : verdict :=
   match oracle_q None steps 0 with
   | Some c => PropFail c
-  | None => match corrq ce batch steps empty_chain 0 with Some k => Disagree k | None => Agree end
+  | None =>
+      match oracle_qx None steps 0 with
+      | Some c => PropFail c
+      | None => match corrq ce batch steps empty_chain 0 with Some k => Disagree k | None => Agree end
+      end
   end.
 
 (* ---------- the oracle accepts the model's own output, for ALL inputs ---------- *)
@@ -310,6 +495,43 @@ Qed.
 Lemma c10_agree_sound ce batch steps : c10 ce batch steps = Agree ->
   oracle_q None steps 0 = None /\ corrq ce batch steps empty_chain 0 = None.
 Proof.
-  unfold c10. destruct (oracle_q None steps 0); [discriminate|].
+  unfold c10. destruct (oracle_q None steps 0); [discriminate|]. destruct (oracle_qx None steps 0); [discriminate|].
   destruct (corrq ce batch steps empty_chain 0); [discriminate|]. auto.
+Qed.
+
+Lemma c10_agree_sound_x ce batch steps : c10 ce batch steps = Agree -> oracle_qx None steps 0 = None.
+Proof.
+  unfold c10. destruct (oracle_q None steps 0); [discriminate|]. destruct (oracle_qx None steps 0); [discriminate|]. reflexivity.
+Qed.
+
+(* ---------- the further clauses on the model ---------- *)
+(* read-your-writes follows from run_actions: for EVERY script, own store and knowledge consistent with it,
+   the body-level checker accepts the model's log of that body (whatever follows it) *)
+Definition known_ok (known : kmap) (own : omapb) : Prop := forall k x, kget k known = Some x -> assoc bcmp k own = x.
+
+Lemma known_ok_update k x known own own' :
+  known_ok known own -> assoc bcmp k own' = x -> (forall k', bcmp k' k <> Eq -> assoc bcmp k' own' = assoc bcmp k' own) ->
+  known_ok ((k, x) :: known) own'.
+Proof.
+  intros H Hk Ho k' y. unfold kget. cbn [find fst snd]. destruct (beqb k k') eqn:B.
+  - apply beqb_eq in B. subst k'. intros E. injection E as <-. exact Hk.
+  - intros E. rewrite Ho; [apply H; exact E|]. intros C. apply bcmp_eq in C. subst k'.
+    rewrite beqb_refl in B. discriminate.
+Qed.
+
+Lemma ryw_model e s node : forall acts known own rest, sorted bcmp own -> known_ok known own ->
+  ryw node known acts (fst (run_actions e s node own acts) ++ rest) = true.
+Proof.
+  induction acts as [|a r IH]; intros known own rest Hs Hk; cbn [ryw run_actions]; [reflexivity|].
+  destruct a as [k v|k|q].
+  - apply IH; [apply b_insert_sorted; exact Hs|]. apply (known_ok_update k (Some v) known own); [exact Hk| |].
+    + rewrite B_assoc_insert by exact Hs. rewrite (proj2 (bcmp_eq k k) eq_refl). reflexivity.
+    + intros k' N. rewrite B_assoc_insert by exact Hs. destruct (bcmp k' k); [contradiction|reflexivity|reflexivity].
+  - apply IH; [apply B_delete_sorted; exact Hs|]. apply (known_ok_update k None known own); [exact Hk| |].
+    + rewrite B_assoc_delete by exact Hs. rewrite (proj2 (bcmp_eq k k) eq_refl). reflexivity.
+    + intros k' N. rewrite B_assoc_delete by exact Hs. destruct (bcmp k' k); [contradiction|reflexivity|reflexivity].
+  - specialize (IH known own rest Hs Hk). destruct (run_actions e s node own r) as [tr' own']. cbn [fst] in *.
+    destruct q; cbn [run_qact app ryw]; try exact IH; try reflexivity.
+    rewrite N.eqb_refl, IH. cbn [andb]. destruct (kget k known) as [x|] eqn:G; [|reflexivity].
+    rewrite (Hk k x G). rewrite obytes_eqb_refl. reflexivity.
 Qed.
